@@ -539,51 +539,11 @@ theorem ackInv_restart {n : Nat} (h : AckInv s) (hs : doRestart s n = some s') :
     · cases hs
   · cases hs
 
-theorem ackInv_restartLate {n : Nat} (h : AckInv s) (hs : doRestartLate s n = some s') : AckInv s' := by
-  unfold doRestartLate at hs
-  split at hs
-  · rename_i x hx
-    split at hs
-    · cases hs
-      have hlt : n < s.nodes.length := by
-        rcases List.getElem?_eq_some_iff.mp hx with ⟨hl, _⟩; exact hl
-      have hl : (restartNodeLate s.clog s.bounds x).life = x.life + 1 := by simp [restartNodeLate, restartNode]
-      have hp : (restartNodeLate s.clog s.bounds x).pending = [] := by simp [restartNodeLate, restartNode]
-      have hq : (restartNodeLate s.clog s.bounds x).nextSeq = 0 := by simp [restartNodeLate, restartNode]
-      refine ⟨?_, ?_, ?_⟩
-      · intro m x' hx' p hpp e' he' hw
-        rw [getElem?_setNode] at hx'
-        split at hx'
-        · simp only [hlt, if_true, Option.some.injEq] at hx'
-          subst hx'
-          rw [hp] at hpp
-          cases hpp
-        · exact h.pend m x' hx' p hpp e' he' hw
-      · intro m x' hx'
-        rw [getElem?_setNode] at hx'
-        split at hx'
-        · rename_i hnm
-          subst hnm
-          simp only [hlt, if_true, Option.some.injEq] at hx'
-          subst hx'
-          rw [hp, hl, hq]
-          refine ⟨?_, ?_⟩
-          · intro p hpp; cases hpp
-          · intro e' he' hw hprop
-            have := (h.seqs n x hx).2 e' he' hw hprop
-            exact ⟨by omega, fun ht => by omega⟩
-        · exact h.seqs m x' hx'
-      · exact h.acks
-    · cases hs
-  · cases hs
+theorem ackInv_restartLate {n : Nat} (_h : AckInv s) (hs : doRestartLate s n = some s') : AckInv s' := by
+  simp [doRestartLate, commitLoopAfterReplay] at hs
 
-theorem ackInv_replayLate {n : Nat} (h : AckInv s) (hs : doReplayLate s n = some s') : AckInv s' := by
-  unfold doReplayLate at hs
-  split at hs
-  · split at hs
-    · cases hs; frame_node h
-    · cases hs
-  · cases hs
+theorem ackInv_replayLate {n : Nat} (_h : AckInv s) (hs : doReplayLate s n = some s') : AckInv s' := by
+  simp [doReplayLate, commitLoopAfterReplay] at hs
 
 /-- the invariant holds after every step -/
 theorem ackInv_step {o : Op} (h : AckInv s) (hs : step s o = some s') : AckInv s' := by
